@@ -872,10 +872,7 @@ func betweenDegenerateRule(p *core.Program, r *core.Report, rule string) {
 // parityRule (C11): the location is decided by the parity of the crossing count, and the count only ever grows by one.
 func parityRule(p *core.Program, r *core.Report, rule string) {
 	r.Rule(rule, "CONSTEVAL: getLocation evaluated with the counter's crossing count bound to 0..5 (and the on-segment flag false) returns Exterior, Interior, Exterior, Interior, ... - the even-odd rule, which is what `inside` means for a ring that overlaps itself; and every store to the crossing count in the package adds the constant 1 to it (a signed count with a non-zero test is the winding rule: a ring walked twice, or a pentagram's core, would read as inside)", 2)
-	gl := mustFn(p, r, rule, "xy/internal/raycrossing", "(*rayCrossingCounter).getLocation")
-	if gl == nil {
-		return
-	}
+	var gl *ssa.Function
 	isField := func(addr ssa.Value, name string) bool {
 		fa, ok := addr.(*ssa.FieldAddr)
 		if !ok {
@@ -887,6 +884,28 @@ func parityRule(p *core.Program, r *core.Report, rule string) {
 		}
 		st, ok := pt.Elem().Underlying().(*types.Struct)
 		return ok && st.Field(fa.Field).Name() == name
+	}
+	// the function that turns the count into a location: by role (it returns a location.Type and reads the count),
+	// so that inlining getLocation into its caller keeps the rule
+	for _, f := range pkgFuncs(p, "xy/internal/raycrossing") {
+		if f.Parent() != nil || f.Signature.Results().Len() != 1 || !strings.HasSuffix(f.Signature.Results().At(0).Type().String(), "location.Type") {
+			continue
+		}
+		reads := false
+		for _, b := range f.Blocks {
+			for _, in := range b.Instrs {
+				if ld, ok := in.(*ssa.UnOp); ok && ld.Op == token.MUL && isField(ld.X, "crossingCount") {
+					reads = true
+				}
+			}
+		}
+		if reads && (gl == nil || f.Name() == "getLocation") {
+			gl = f
+		}
+	}
+	if gl == nil {
+		r.Lost(rule, "xy/internal/raycrossing/location-from-count", "no function of the package returns a location.Type computed from the crossing count")
+		return
 	}
 	loc := map[string]int64{}
 	if pkg := p.Pkg("xy/location"); pkg != nil {
@@ -986,6 +1005,33 @@ func reduceKeepsCandidatesRule(p *core.Program, r *core.Report, rule string) {
 				out = o
 			}
 			return out
+		case *ssa.MakeSlice:
+			// a fresh array: where its elements are copied from (the padding written out in place)
+			out := ""
+			for _, rf := range eng.Referrers(x) {
+				ia, ok := rf.(*ssa.IndexAddr)
+				if !ok {
+					continue
+				}
+				for _, u := range eng.Referrers(ia) {
+					st, isSt := u.(*ssa.Store)
+					if !isSt || st.Addr != ssa.Value(ia) {
+						continue
+					}
+					if ld, isLd := st.Val.(*ssa.UnOp); isLd && ld.Op == token.MUL {
+						if sia, isIA := ld.X.(*ssa.IndexAddr); isIA {
+							o := origin(sia.X, depth+1)
+							if o != "input" && o != "set" {
+								return o
+							}
+							out = o
+						}
+					}
+				}
+			}
+			if out != "" {
+				return out
+			}
 		case *ssa.Call:
 			if o := eng.CalleeObj(x); o != nil && o.Name() == "ToFlatArray" {
 				return "set"
